@@ -733,7 +733,12 @@ class HState:
         sn = ev["s"]
         pre, res, exp = self._model_try(fn)
         r, resps = self._cmd(sn, text, ev["op"])
-        st = self._status("C17", ev, r, exp, False)
+        # MH keeps messages as all-digit entries of the folder: a server may refuse to make a mailbox
+        # whose name has such a component (asimap documents this for the whole name); if it accepts, the
+        # mailbox has to work like any other
+        target = ev.get("to") if ev["op"] == "rename" else ev.get("m")
+        digits = ev["op"] in ("create", "rename") and any(c.isdigit() for c in canon_name(target or "").split("/"))
+        st = self._status("C17", ev, r, exp, digits)
         if st == "refused" and exp == ("OK",):
             self._rollback(pre)
         elif st == "ok" and exp != ("OK",):
@@ -762,6 +767,9 @@ class HState:
         n = ev.get("n", 1)
         unseen = ev.get("unseen", True)
         folder = "inbox" if canon_name(name) == "INBOX" else name
+        mbm = self.model.mboxes.get(canon_name(name))
+        if mbm is None or mbm.noselect or not os.path.isdir(self.w.folder_path(folder)):
+            return  # no such folder: the agent has nowhere to deliver
         for i in range(n):
             cid = ev["cids"][i] if ev.get("cids") else f"d{self.step}x{i}"
             idn = 5000 + self.step * 10 + i
